@@ -12,9 +12,10 @@ extern "C" void h_target(void)
 {
 	int L = vp_param(0), alpha = vp_param(1);
 	char t[80]; int n = 0;
-	n = put(t, n, "GET /");
+	n = put(t, n, alpha == 3 ? "GET " : "GET /");       // alphabet 3: the target does not start with a slash
 	for (int i = 0; i < L; i++) {
 		char c = (char)nondet_u8(); vp_assume(c != 0);
+		if (alpha == 3) vp_assume(c == '#' || c == '?' || c == '/' || c == 'a' || c == '.' || c == '%' || c == '=');
 		if (alpha == 1) vp_assume(c == '.' || c == '/' || c == '%' || c == '2' || c == 'e' || c == 'E' || c == 'f' || c == '5' || c == 'a');
 		if (alpha == 2) vp_assume(c == '.' || c == '/' || c == '%' || c == '0' || c == 'a');      // can spell %00
 		t[n++] = c;
@@ -28,6 +29,7 @@ extern "C" void h_target(void)
 		vp_assert(!req.path().contains(".."), "the decoded request path never contains '..'");
 		{ String pth = req.path(); for (int i = 0; i + 1 < pth.length(); i++) vp_assert(!(pth[i] == '.' && pth[i + 1] == '.'), "no '..' anywhere in the bytes of the decoded path (also behind an embedded NUL)"); }
 		vp_assert((int)strlen(*req.path()) <= L + 1, "decoded path no longer than the target");
+		if (alpha == 3) vp_assert(req.query("a").length() <= L, "the query value is a piece of the target");
 		vp_note(req.path().length());
 	}
 	vp_reach(1);
@@ -166,3 +168,38 @@ extern "C" void h_serve(void)
 	}
 	vp_reach(4);
 }
+
+#include <sys/stat.h>
+// static file server rooted at "root": whatever the target, the content of a file outside the root is never served.
+// p0 = template, p1/p2 = window of positions replaced by arbitrary characters from { . / % 2 5 e }
+static const char* const FS_TPL[] = { "/in.txt", "/../secret.txt", "/%2e%2e/secret.txt", "/%252e%252e/secret.txt", "/.%252e/secret.txt", "/sub/../../secret.txt", "/%2e%2e%2fsecret.txt", "/..%252fsecret.txt" };
+extern "C" void h_fileserver(void)
+{
+	int tpl = vp_param(0), pos = vp_param(1), cnt = vp_param(2);
+	if (!vp_symbolic_run()) mkdir("root", 0755);      // natively the files are real (in the replay's scratch directory)
+	{ File f("root/in.txt", File::WRITE); f.write("INSIDE", 6); }
+	{ File f("secret.txt", File::WRITE); f.write("OUTSIDE", 7); }
+	char t[120]; int n = 0;
+	n = put(t, n, "GET ");
+	int t0 = n;
+	n = put(t, n, FS_TPL[tpl]);
+	for (int i = pos; i < pos + cnt && t0 + i < n; i++) { char c = (char)nondet_u8(); vp_assume(c == '.' || c == '/' || c == '%' || c == '2' || c == '5' || c == 'e'); t[t0 + i] = c; }
+	n = put(t, n, " HTTP/1.1\r\nHost: h\r\nConnection: close\r\n\r\n");
+	int fd = vp_sock_new();
+	vp_sock_feed(fd, t, n); vp_sock_peer_close(fd);
+	{
+		HttpServer srv;
+		srv.setRoot("root");
+		SocketServer* base = &srv;
+		Socket s(fd);
+		base->serve(s);
+	}
+	static byte out[800]; int ol = vp_sock_sent(fd, out, 800);
+	bool leaked = false;
+	for (int i = 0; i + 7 <= ol && i + 7 <= 800; i++) if (!memcmp(out + i, "OUTSIDE", 7)) leaked = true;
+	vp_assert(!leaked, "a file server rooted at a directory never serves a file outside it");
+	if (cnt == 0 && tpl == 0) { bool ok = false; for (int i = 0; i + 6 <= ol; i++) if (!memcmp(out + i, "INSIDE", 6)) ok = true; vp_assert(ok, "a file inside the root is served"); }
+	vp_note(ol > 0);
+	vp_reach(7);
+}
+
